@@ -398,7 +398,7 @@ def check(P, R, tier):
     check_borrow(P, R, tu)
     check_dispatch(P, R, tu)
     import diffdecode
-    n = diffdecode.check_yd(R, tu, "RF2-diff") + diffdecode.check_ymd(R, tu, "RF2-diff") + diffdecode.check_ywd(R, tu, "RF2-diff")
+    n = diffdecode.check_all(R, tu, "RF2-diff")
     R.floor("RF2-diff", "decoded points of the year/day, year/month/day and year/week/day differences", n, 3000000)
 
 
